@@ -3,6 +3,9 @@
 #ifndef C04_L
 #define C04_L 18
 #endif
+#ifndef C04_FILL
+#define C04_FILL 12
+#endif
 namespace {
    struct World {
       impl::Lexicon lx;
@@ -13,7 +16,38 @@ namespace {
       const ipr::Template* TM[2];
       const ipr::Expr* E[2];
       const ipr::Expr_list* XL[2];
-      World() {
+      // fillers for h_separated: operand nodes and spellings used only by the concrete bulk requests
+      enum { NF = C04_FILL, NK = 15 };
+      const ipr::Type* F[NF ? NF : 1]; const ipr::String* FS[NF ? NF : 1]; const ipr::Identifier* FI[NF ? NF : 1];
+      const void* fnode[NF ? NF : 1][NK];
+      void make_fillers(int from, int to) {
+         // spellings on both sides of the pool spellings ("+", "alpha", "int") in the byte order the word tables are keyed on
+         static const char8_t* const spell[] = { u8"!", u8"zeta", u8"b", u8"#", u8"k", u8"inu", u8"ins", u8"alph", u8"alphaa", u8"*", u8",", u8"in", u8"intt", u8"y", u8"a", u8"j", u8"m", u8"%", u8"x", u8"c",
+            u8"d", u8"e", u8"f", u8"g", u8"h", u8"i", u8"l", u8"n", u8"o", u8"p", u8"q", u8"r", u8"s", u8"t", u8"u", u8"v", u8"w", u8"aa", u8"ab", u8"ac", u8"ad", u8"ae", u8"af", u8"ag", u8"ah", u8"ai", u8"aj", u8"ak" };
+         for (int i = from; i < to && i < NF; ++i) {
+            F[i] = (i % 2 == 0) ? static_cast<const ipr::Type*>(lx.make_class(*unit.global_region())) : static_cast<const ipr::Type*>(lx.make_union(*unit.global_region()));
+            FS[i] = &lx.get_string(spell[i % 48]); FI[i] = &lx.get_identifier(*FS[i]);
+         }
+      }
+      void bulk_one(int i, const void** out) {
+         int k = 0; auto& f = *F[i]; auto& s = *FS[i]; auto& id = *FI[i];
+         out[k++] = &lx.get_identifier(s.characters()); out[k++] = &lx.get_operator(s); out[k++] = &lx.get_suffix(id);
+         out[k++] = &lx.get_conversion(f); out[k++] = &lx.get_ctor_name(f); out[k++] = &lx.get_dtor_name(f);
+         out[k++] = &lx.get_template_id(*E[i % 2], *lx.make_expr_list());       // a fresh argument list each time: generative operand
+         out[k++] = &lx.get_logogram(s); out[k++] = &lx.get_symbol(id, *T[i % 3]); out[k++] = &lx.get_symbol(*I[i % 3], f);
+         out[k++] = &lx.get_label(id); out[k++] = &lx.get_this(f);
+         out[k++] = &lx.get_literal(f, *S[i % 3]); out[k++] = &lx.get_literal(*T[i % 3], s);
+         out[k++] = &lx.get_linkage(s);
+         (void)lx.get_calling_convention(s.characters());
+      }
+      void bulk(int from, int to) { for (int i = from; i < to && i < NF; ++i) bulk_one(i, fnode[i]); }
+      bool bulk_unchanged(int from, int to) {
+         bool ok = true; const void* again[NK];
+         for (int i = from; i < to && i < NF; ++i) { bulk_one(i, again); for (int k = 0; k < NK; ++k) if (k != 6) ok = ok && again[k] == fnode[i][k]; }
+         return ok;
+      }
+      explicit World(int pre = 0) {
+         make_fillers(0, pre);
          T[0] = &lx.int_type(); T[1] = lx.make_class(*unit.global_region()); T[2] = &lx.get_pointer(lx.bool_type());
          vp_sort_by_address(T, 3);
          S[0] = &lx.get_string(u8"alpha"); S[1] = &lx.get_string(u8"int"); S[2] = &lx.get_string(u8"+");
@@ -25,6 +59,7 @@ namespace {
          E[0] = lx.make_id_expr(*I[0]); E[1] = &lx.true_value();
          auto* x0 = lx.make_expr_list(); auto* x1 = lx.make_expr_list(); x1->push_back(&lx.false_value());
          XL[0] = x0; XL[1] = x1;
+         make_fillers(pre, NF);
       }
    };
    enum Ctor { KIdentifier, KOperator, KSuffix, KConversion, KCtor, KDtor, KGuide, KTemplate_id, KLogogram, KSymbol, KLabel, KThis, KLiteral, KLinkage, KConvention, NCTOR };
@@ -56,6 +91,28 @@ namespace {
       return nullptr;
    }
    inline bool same_args(const Req& x, const Req& y) { return x.c == y.c && x.a[0] == y.a[0] && x.a[1] == y.a[1]; }
+   // the same request again (nothing symbolic)
+   const void* again(World& w, const Req& r) {
+      auto& lx = w.lx;
+      switch (r.c) {
+      case KIdentifier: return &lx.get_identifier(*w.S[r.a[0]]);
+      case KOperator: return &lx.get_operator(*w.S[r.a[0]]);
+      case KSuffix: return &lx.get_suffix(*w.I[r.a[0]]);
+      case KConversion: return &lx.get_conversion(*w.T[r.a[0]]);
+      case KCtor: return &lx.get_ctor_name(*w.T[r.a[0]]);
+      case KDtor: return &lx.get_dtor_name(*w.T[r.a[0]]);
+      case KGuide: return &lx.get_guide_name(*w.TM[r.a[0]]);
+      case KTemplate_id: return &lx.get_template_id(*w.E[r.a[0]], *w.XL[r.a[1]]);
+      case KLogogram: return &lx.get_logogram(*w.S[r.a[0]]);
+      case KSymbol: return &lx.get_symbol(*w.I[r.a[0]], *w.T[r.a[1]]);
+      case KLabel: return &lx.get_label(*w.I[r.a[0]]);
+      case KThis: return &lx.get_this(*w.T[r.a[0]]);
+      case KLiteral: return &lx.get_literal(*w.T[r.a[0]], *w.S[r.a[1]]);
+      case KLinkage: return &lx.get_linkage(*w.S[r.a[0]]);
+      case KConvention: return &lx.get_calling_convention(w.S[r.a[0]]->characters());
+      }
+      return nullptr;
+   }
    // a label and a symbol may legitimately coincide: get_label(id) is the symbol (id, void)
 }
 extern "C" void h_same_table(void) {
@@ -73,6 +130,48 @@ extern "C" void h_history(void) {
    r[2].node = request(*w, r[2], c, true);
    vp_assert((r[0].node == r[2].node) == same_args(r[0], r[2]), 2);
    if (r[1].c == c) vp_assert((r[0].node == r[1].node) == same_args(r[0], r[1]) && (r[1].node == r[2].node) == same_args(r[1], r[2]), 3);
+   vp_done();
+}
+// three requests to one table, then each again: every key is still found after the third insertion has rotated the table; and three
+// requests spread over the tables that share storage or operands (symbol / label / this share one table)
+extern "C" void h_table3(void) {
+   World* w = new World; Req r[3];
+   unsigned c = vp_pick(NCTOR);
+   for (int i = 0; i < 3; ++i) r[i].node = request(*w, r[i], c, true);
+   for (int i = 0; i < 3; ++i) for (int j = i + 1; j < 3; ++j) vp_assert((r[i].node == r[j].node) == same_args(r[i], r[j]), 7);
+   for (int i = 0; i < 3; ++i) vp_assert(again(*w, r[i]) == r[i].node, 8);
+   vp_done();
+}
+// symbols, labels and `this` live in one table keyed on (name, type): a label is the symbol (name, void), `this` the symbol ("this", T)
+extern "C" void h_symbol_table(void) {
+   World* w = new World; auto& lx = w->lx; Req r[3];
+   const ipr::Name* names[4] = { w->I[0], w->I[1], w->I[2], &lx.get_identifier(u8"this") };
+   const ipr::Type* types[4] = { w->T[0], w->T[1], w->T[2], &lx.void_type() };
+   const ipr::Symbol* node[3]; const ipr::Name* nm[3]; const ipr::Type* ty[3];
+   for (int i = 0; i < 3; ++i) {
+      unsigned form = vp_pick(3);
+      if (form == 0) { unsigned a = vp_pick(4), b = vp_pick(4); nm[i] = names[a]; ty[i] = types[b]; node[i] = &lx.get_symbol(*nm[i], *ty[i]); }
+      else if (form == 1) { unsigned a = vp_pick(3); nm[i] = names[a]; ty[i] = types[3]; node[i] = &lx.get_label(*w->I[a]); }
+      else { unsigned b = vp_pick(4); nm[i] = names[3]; ty[i] = types[b]; node[i] = &lx.get_this(*ty[i]); }
+   }
+   for (int i = 0; i < 3; ++i) {
+      vp_assert(&node[i]->name() == nm[i] && &node[i]->type() == ty[i], 30);            // still exactly the (name, type) asked for, after the later requests
+      vp_assert(&lx.get_symbol(*nm[i], *ty[i]) == node[i], 31);
+      for (int j = i + 1; j < 3; ++j) vp_assert((node[i] == node[j]) == (nm[i] == nm[j] && ty[i] == ty[j]), 32);
+   }
+   vp_done();
+}
+// requests separated by bulk insertions into every name/atom table (see C01 h_separated)
+extern "C" void h_separated(void) {
+   World* w = new World(World::NF / 2); Req r[2];
+   unsigned c = vp_pick(NCTOR);
+   w->bulk(0, World::NF / 2);
+   r[0].node = request(*w, r[0], c, true);
+   w->bulk(World::NF / 2, World::NF);
+   r[1].node = request(*w, r[1], c, true);
+   vp_assert((r[0].node == r[1].node) == same_args(r[0], r[1]), 4);
+   vp_assert(w->bulk_unchanged(0, World::NF), 5);
+   for (int i = 0; i < World::NF; ++i) for (int k = 0; k < World::NK; ++k) vp_assert(w->fnode[i][k] != r[0].node && w->fnode[i][k] != r[1].node, 6);
    vp_done();
 }
 // word-keyed constructors: two symbolic spellings, equal bytes <=> same node
